@@ -56,11 +56,16 @@ ASSUMPTIONS = [
     'dialect-library parse memoised per process (filled by the real parser)',
 ]
 
-# ---- known findings, excluded by construction (counted in evidence) unless the
-# environment variable VERIF_C10_NO_EXCLUDE is set
+# ---- findings.  D6 (ClickHouse backslash) and the exponential ${flag} cycles were
+# repaired in /repo (fix: commits 8c748bb, 4e1fc06) and are not excluded any more
+# (VERIF_C10_EXCLUDE=D6,EXP restores the old exclusions).  D12 (line break in a literal
+# inside a re-indented block) is an open known finding: excluded by construction, counted
+# in evidence, its repro is run from known_findings.json.  VERIF_C10_NO_EXCLUDE=1 switches
+# every exclusion off (to re-derive D12).
 _NOEX = bool(os.environ.get('VERIF_C10_NO_EXCLUDE'))
-EXCLUDE_D6 = not _NOEX          # ClickHouse: backslash in a literal
-EXCLUDE_EXP_CYCLES = not _NOEX  # ${flag} cycle with >= 2 references back into the cycle
+_EXC = set(x.strip().upper() for x in os.environ.get('VERIF_C10_EXCLUDE', '').split(','))
+EXCLUDE_D6 = 'D6' in _EXC and not _NOEX          # ClickHouse: backslash in a literal
+EXCLUDE_EXP_CYCLES = 'EXP' in _EXC and not _NOEX  # ${flag} cycle with >= 2 references back
 EXCLUDE_D12 = not _NOEX         # line break in a literal that lands in an indented block
 # engines whose literal syntax keeps a line break raw (the others write \n)
 RAW_NEWLINE_ENGINES = ('sqlite', 'psql', 'trino', 'presto', 'clickhouse')
